@@ -1,6 +1,7 @@
 package loadbalancer
 
 import (
+	"net/http"
 	"net/url"
 	"strconv"
 	"time"
@@ -170,9 +171,19 @@ func VerifC06AffinityConcurrent(strategy int, n int) {
 	want1, want2 := lb.NextBackend(r1), lb.NextBackend(r2)
 	var got1, got2 *Backend
 	verifrt.Go(func() { got1 = lb.NextBackend(r1) })
-	verifrt.Go(func() { got2 = lb.NextBackend(r2) })
+	if verifrt.Bool("healthBookkeepingInsteadOfSecondClient") {
+		// health bookkeeping that leaves the eligible set as it is - a successful
+		// active probe of the client's own backend, an admin listing - runs at the same time
+		got2 = want2
+		verifrt.Go(func() {
+			lb.processHealthCheckResponse(want1, &http.Response{StatusCode: http.StatusOK})
+			lb.ListBackends()
+		})
+	} else {
+		verifrt.Go(func() { got2 = lb.NextBackend(r2) })
+	}
 	verifrt.WaitAll()
-	verifrt.Assert(got1 == want1 && got2 == want2, "concurrent requests of different clients each reach their own client's backend")
+	verifrt.Assert(got1 == want1 && got2 == want2, "concurrent requests of different clients each reach their own client's backend (the eligible set does not change)")
 }
 
 // VerifC06Append: under ip_hash_consistent, appending a backend moves a
